@@ -5,5 +5,6 @@ CONSTANTS
   DbIds = {"com", "x.com", "a.x.com", "io"}
   EmitOn = TRUE
   ImplOnly = TRUE
+  ImplNegAgain = FALSE
 VIEW GraphView
 INVARIANTS TypeOK CacheTransparent ImplAdmissible
